@@ -8,6 +8,7 @@ import (
 	"go/constant"
 	"go/token"
 	"go/types"
+	"strings"
 
 	"golang.org/x/tools/go/ssa"
 )
@@ -253,6 +254,164 @@ func DomFacts(b *ssa.BasicBlock) []Fact {
 		f.If = iff
 		f.Block = p
 		out = append(out, f)
+		out = append(out, expandHelperFact(f, 0)...)
+	}
+	return out
+}
+
+// ---- guard helpers ---------------------------------------------------------------
+//
+// A condition extracted into a small boolean helper of the module (`if k.isExempt(x) {`) is read in
+// place: the facts that hold on *every* path of the helper returning the branch's value are implied at
+// the branch. The values inside those facts are the helper's own SSA values, so rules that match a
+// guard by what is tested (callee, field, constant) see through the helper, while rules that need the
+// identity of a caller value do not (they keep reporting "not recognised").
+
+var helperFactsMemo = map[*ssa.Function]map[bool][]Fact{}
+
+func expandHelperFact(f Fact, depth int) []Fact {
+	if depth > 2 || (f.Kind != FTrue && f.Kind != FFalse) {
+		return nil
+	}
+	call, ok := canon(f.V).(*ssa.Call)
+	if !ok {
+		return nil
+	}
+	h := call.Call.StaticCallee()
+	if h == nil || h.Blocks == nil || h.Parent() != nil || !strings.HasPrefix(funcPkgPath(h), modPath) {
+		return nil
+	}
+	res := h.Signature.Results()
+	if res.Len() != 1 {
+		return nil
+	}
+	if bt, ok := res.At(0).Type().Underlying().(*types.Basic); !ok || bt.Kind() != types.Bool {
+		return nil
+	}
+	want := f.Kind == FTrue
+	if m, ok := helperFactsMemo[h]; ok {
+		if r, ok := m[want]; ok {
+			return withSite(r, f)
+		}
+	}
+	r := helperFacts(h, want, depth)
+	if helperFactsMemo[h] == nil {
+		helperFactsMemo[h] = map[bool][]Fact{}
+	}
+	helperFactsMemo[h][want] = r
+	return withSite(r, f)
+}
+
+func withSite(fs []Fact, at Fact) []Fact {
+	out := make([]Fact, len(fs))
+	for i, x := range fs {
+		x.If, x.Block = at.If, at.Block
+		out[i] = x
+	}
+	return out
+}
+
+func sameFact(a, b Fact) bool {
+	return a.Kind == b.Kind && a.Op == b.Op && a.V == b.V && a.X == b.X && a.Y == b.Y
+}
+
+// helperFacts: facts implied by "h returned want": the intersection, over every return of h whose value
+// can be want, of the facts dominating that return (for a returned φ of the return block: per incoming
+// edge, the facts dominating the predecessor plus its branch edge). Dominance-based, hence loop-safe.
+func helperFacts(h *ssa.Function, want bool, depth int) []Fact {
+	var result []Fact
+	first := true
+	merge := func(pf []Fact) {
+		if first {
+			result, first = pf, false
+			return
+		}
+		var keep []Fact
+		for _, a := range result {
+			for _, c := range pf {
+				if sameFact(a, c) {
+					keep = append(keep, a)
+					break
+				}
+			}
+		}
+		result = keep
+	}
+	consider := func(v ssa.Value, facts []Fact) {
+		if bv, ok := boolConst(canon(v)); ok {
+			if bv == want {
+				merge(facts)
+			}
+			return
+		}
+		rf := factOf(v, want)
+		pf := append(append([]Fact{}, facts...), rf)
+		pf = append(pf, expandHelperFact(rf, depth+1)...)
+		merge(pf)
+	}
+	nRet := 0
+	for _, b := range h.Blocks {
+		if len(b.Instrs) == 0 {
+			continue
+		}
+		r, ok := b.Instrs[len(b.Instrs)-1].(*ssa.Return)
+		if !ok {
+			continue
+		}
+		nRet++
+		if len(r.Results) != 1 {
+			return nil
+		}
+		v := r.Results[0]
+		if ph, isPhi := v.(*ssa.Phi); isPhi && ph.Block() == b {
+			pp := factsPerPredRaw(b, depth)
+			for i := range b.Preds {
+				consider(ph.Edges[i], pp[i])
+			}
+			continue
+		}
+		consider(v, domFactsRaw(b, depth))
+	}
+	if nRet == 0 || first {
+		return nil
+	}
+	return result
+}
+
+// domFactsRaw / factsPerPredRaw: like DomFacts / FactsPerPred, with nested helper expansion bounded by depth.
+func domFactsRaw(b *ssa.BasicBlock, depth int) []Fact {
+	var out []Fact
+	for a := b; a != nil; a = a.Idom() {
+		if len(a.Preds) != 1 {
+			continue
+		}
+		p := a.Preds[0]
+		if len(p.Instrs) == 0 {
+			continue
+		}
+		iff, ok := p.Instrs[len(p.Instrs)-1].(*ssa.If)
+		if !ok || p.Succs[0] == p.Succs[1] {
+			continue
+		}
+		f := factOf(iff.Cond, p.Succs[0] == a)
+		out = append(out, f)
+		out = append(out, expandHelperFact(f, depth+1)...)
+	}
+	return out
+}
+
+func factsPerPredRaw(b *ssa.BasicBlock, depth int) [][]Fact {
+	var out [][]Fact
+	for _, p := range b.Preds {
+		fs := domFactsRaw(p, depth)
+		if len(p.Instrs) > 0 {
+			if iff, ok := p.Instrs[len(p.Instrs)-1].(*ssa.If); ok && p.Succs[0] != p.Succs[1] {
+				f := factOf(iff.Cond, p.Succs[0] == b)
+				fs = append(fs, f)
+				fs = append(fs, expandHelperFact(f, depth+1)...)
+			}
+		}
+		out = append(out, fs)
 	}
 	return out
 }
@@ -660,6 +819,7 @@ func RefusingFacts(target ssa.Instruction) []Fact {
 		fa.If = iff
 		fa.Block = b
 		out = append(out, fa)
+		out = append(out, expandHelperFact(fa, 0)...)
 	}
 	return out
 }
@@ -832,6 +992,7 @@ func FactsPerPred(b *ssa.BasicBlock) [][]Fact {
 				f.If = iff
 				f.Block = p
 				fs = append(fs, f)
+				fs = append(fs, expandHelperFact(f, 0)...)
 			}
 		}
 		out = append(out, fs)
